@@ -37,6 +37,10 @@ sys.setrecursionlimit(20000)
 
 # {{{ source index
 
+class StepBudgetExceeded(Exception):
+    """The code under contract ran longer than the contract allows."""
+
+
 class SourceIndex:
     """filename -> parsed module, function object -> ast node."""
 
@@ -330,6 +334,8 @@ class Interp:
         # C17: hook(list of the elements of a set/frozenset) -> list in the
         # iteration order to be used (adversarial hash order)
         self.unordered_hook = None
+        #: optional budget of interpreted calls (contracts about termination)
+        self.max_steps = None
         self.steps = 0
         self.max_steps = 5_000_000
 
@@ -365,6 +371,9 @@ class Interp:
     def call(self, fn, args=(), kwargs=None):
         kwargs = kwargs or {}
         self.steps += 1
+        if self.max_steps is not None and self.steps > self.max_steps:
+            raise StepBudgetExceeded(
+                f"more than {self.max_steps} calls interpreted")
         # bound methods
         if isinstance(fn, types.MethodType):
             f = fn.__func__
